@@ -21,6 +21,9 @@ struct Obs {
     disconnect_before_connect: AtomicBool,
     off_started: AtomicBool,
     off_saw_cancel: AtomicBool,
+    inline_started: AtomicBool,
+    inline_saw_cancel: AtomicBool,
+    inline_finished: AtomicBool,
     off_finished: AtomicBool,
     last_peer: AtomicU64,
     gate_open: Mutex<bool>,
@@ -59,7 +62,19 @@ impl From<SlowKey> for String {
 fn build_server(obs: &Arc<Obs>, reg: &PeerRegistry) -> WebSocketServer {
     let (o1, o2, o3, o4) = (obs.clone(), obs.clone(), obs.clone(), obs.clone());
     let (o5, reg5) = (obs.clone(), reg.clone());
+    let o6 = obs.clone();
     let router = Router::new()
+        // an INLINE context-aware handler (it runs on the connection's reader): it, too, must see the embedder's cancellation
+        .with_json_ctx("/inline_ctx_park", move |ctx, _v| {
+            o6.inline_started.store(true, Ordering::SeqCst);
+            let t0 = Instant::now();
+            while t0.elapsed() < Duration::from_secs(3) {
+                if ctx.is_cancelled() { o6.inline_saw_cancel.store(true, Ordering::SeqCst); break; }
+                std::thread::sleep(Duration::from_millis(5));
+            }
+            o6.inline_finished.store(true, Ordering::SeqCst);
+            Ok(json!({}))
+        })
         .with_json("/echo", |v| Ok(v))
         .with_json("/big", |_v| Ok(json!({"pad": "y".repeat(1 << 20)})))
         .with_json("/inline_park", move |v| { o1.wait_gate(Duration::from_secs(5)); Ok(v) })
@@ -137,6 +152,11 @@ where S: tokio::io::AsyncRead + tokio::io::AsyncWrite + Unpin {
             let t0 = Instant::now();
             while !obs.off_started.load(Ordering::SeqCst) && t0.elapsed() < Duration::from_secs(3) { tokio::time::sleep(Duration::from_millis(2)).await; }
         }
+        "inline_ctx_parked" => {
+            let _ = ws.send(WsMsg::Binary(req(5, "/inline_ctx_park", json!(5)).into())).await;
+            let t0 = Instant::now();
+            while !obs.inline_started.load(Ordering::SeqCst) && t0.elapsed() < Duration::from_secs(3) { tokio::time::sleep(Duration::from_millis(2)).await; }
+        }
         "off_aliasing" => {
             let _ = ws.send(WsMsg::Binary(req(4, "/off_alias", json!(4)).into())).await;
             let t0 = Instant::now();
@@ -194,7 +214,7 @@ pub fn run(a: &Args) -> i32 {
         scenarios.push((e.to_string(), "connect_panic".into(), "during_connect".into(), 1));
         scenarios.push((e.to_string(), "bad_handshake".into(), "handshake".into(), 1));
         if matches!(*e, "listener_shutdown" | "drain" | "serve_connection_cancel") {
-            for p in ["idle", "off_parked", "outbound_stuck"] { scenarios.push((e.to_string(), "cancel".into(), p.into(), 1)); }
+            for p in ["idle", "off_parked", "outbound_stuck", "inline_ctx_parked"] { scenarios.push((e.to_string(), "cancel".into(), p.into(), 1)); }
         }
         if *e == "drain" { scenarios.push((e.to_string(), "drain_abort".into(), "off_parked".into(), 1)); }
     }
@@ -305,6 +325,7 @@ pub fn run(a: &Args) -> i32 {
         if cause == "cancel" || cause == "drain_abort" {
             let t1 = Instant::now();
             while phase == "off_parked" && !ob.off_started.load(Ordering::SeqCst) && t1.elapsed() < Duration::from_secs(3) { std::thread::sleep(Duration::from_millis(2)); }
+            while phase == "inline_ctx_parked" && !ob.inline_started.load(Ordering::SeqCst) && t1.elapsed() < Duration::from_secs(3) { std::thread::sleep(Duration::from_millis(2)); }
             std::thread::sleep(Duration::from_millis(30));
             token.cancel();
             if let Some(tx) = tx_hold.take() { let _ = tx.send(()); }
@@ -325,6 +346,8 @@ pub fn run(a: &Args) -> i32 {
         // give a parked off-reader handler time to observe cancellation
         let t3 = Instant::now();
         while ob.off_started.load(Ordering::SeqCst) && !ob.off_finished.load(Ordering::SeqCst) && t3.elapsed() < Duration::from_secs(7) { std::thread::sleep(Duration::from_millis(5)); }
+        let t4 = Instant::now();
+        while ob.inline_started.load(Ordering::SeqCst) && !ob.inline_finished.load(Ordering::SeqCst) && t4.elapsed() < Duration::from_secs(5) { std::thread::sleep(Duration::from_millis(5)); }
         std::thread::sleep(Duration::from_millis(30)); // a second (wrong) disconnect would show up now
         let fr = frames_all.lock().unwrap().clone();
         let hello_first = fr.iter().all(|f| f.is_empty() || (f[0].0 != 0 && f[0].1 == "/hello"));
@@ -336,6 +359,7 @@ pub fn run(a: &Args) -> i32 {
                 || (0..64u64).any(|p| !reg.aliases_for(repe::PeerId(p)).is_empty() || reg.key_for(repe::PeerId(p)).is_some()),
             "late_alias": ob.late_alias.load(Ordering::SeqCst), "prompt_disconnects": prompt_disconnects, "present_in_disconnect_hook": !ob.missing_in_hook.load(Ordering::SeqCst),
             "hello_first": hello_first && !hello_after_response,
+            "inline_started": ob.inline_started.load(Ordering::SeqCst), "inline_saw_cancel": ob.inline_saw_cancel.load(Ordering::SeqCst),
             "off_started": ob.off_started.load(Ordering::SeqCst), "off_saw_cancel": ob.off_saw_cancel.load(Ordering::SeqCst), "stubborn": cause == "drain_abort"}));
         server_task.abort();
         drop(tx_hold);
@@ -391,7 +415,7 @@ pub fn run(a: &Args) -> i32 {
             "present_during": resolves_to_b || !reached, "present_after": !reg.is_empty(),
             "alias_after": reg.get_by("session").is_some() || (0..64u64).any(|p| !reg.aliases_for(repe::PeerId(p)).is_empty()),
             "late_alias": 0, "precondition_reached": reached, "prompt_disconnects": 2, "present_in_disconnect_hook": !ob.missing_in_hook.load(Ordering::SeqCst),
-            "hello_first": hello_first, "off_started": false, "off_saw_cancel": false, "stubborn": false}));
+            "hello_first": hello_first, "inline_started": false, "inline_saw_cancel": false, "off_started": false, "off_saw_cancel": false, "stubborn": false}));
         server_task.abort();
     }
     out.finish();
